@@ -210,20 +210,23 @@ static void gen_program(uint64_t rseed, uint64_t idx, const char *tier, sbuf_t *
     sb_printf(o, "mat 1 %d %d rand 128 %llu\nop sqr 0 1 %ld\n", n, n, s1, cut[rng_below(&r, 6)]);
   } else if (IS("mul_m4rm") || IS("addmul_m4rm")) {
     int m = rng_chance(&r, 1, 2) ? 513 + (int)rng_below(&r, thorough ? 1800 : 900) : pdim(&r, mj), l = pdim(&r, mj > 3 ? 3 : mj), n = rng_chance(&r, 1, 2) ? 1 + (int)rng_below(&r, 200) : pdim(&r, mj);
+    if (rng_chance(&r, 1, 4)) m = 2049 + (int)rng_below(&r, 700); /* a second block of rows (__M4RI_MUL_BLOCKSIZE is at most 2048) */
     emat(&r, o, 1, m, l, "rand", 128, s1); emat(&r, o, 2, l, n, "rand", 128, s2);
     if (IS("addmul_m4rm") || rng_chance(&r, 1, 2)) emat(&r, o, 0, m, n, "rand", 128, s3);
     sb_printf(o, "op %s 0 1 2 %d\n", op, (int)rng_below(&r, 9));
   } else if (IS("ech_m4ri") || IS("ech") || IS("top_ech") || IS("ech_pluq")) {
     int m = rng_chance(&r, 1, 2) ? 520 + (int)rng_below(&r, thorough ? 1600 : 800) : pdim(&r, mj), n = rng_chance(&r, 1, 2) ? 20 + (int)rng_below(&r, 250) : pdim(&r, mj);
+    if (rng_chance(&r, 1, 4)) { m = 2049 + (int)rng_below(&r, 700); if (n > 330) n = 70 + n % 260; }
     emat(&r, o, 0, m, n, rng_chance(&r, 1, 3) ? "rank" : "rand", rng_chance(&r, 1, 2) ? 128 : 1 + (long)rng_below(&r, (uint64_t)(m < n ? m : n)), s1);
-    if (IS("ech_m4ri")) sb_printf(o, "op ech_m4ri 0 %d %d\n", (int)rng_below(&r, 2), (int)rng_below(&r, 9));
-    else if (IS("top_ech")) sb_printf(o, "op top_ech 0 %d\n", (int)rng_below(&r, 9));
+    if (IS("ech_m4ri")) sb_printf(o, "op ech_m4ri 0 %d %d\n", (int)rng_below(&r, 2), (int)rng_below(&r, 11));
+    else if (IS("top_ech")) sb_printf(o, "op top_ech 0 %d\n", (int)rng_below(&r, 11));
     else sb_printf(o, "op %s 0 %d\n", op, (int)rng_below(&r, 2));
   } else if (IS("inv_m4ri")) {
     int n = pdim(&r, mj);
     sb_printf(o, "mat 1 %d %d inv 0 %llu\nop inv_m4ri 0 1 %d\n", n, n, s1, (int)rng_below(&r, 9));
   } else if (IS("pluq") || IS("ple")) {
     int m = pdim(&r, mj), n = pdim(&r, mj);
+    if (rng_chance(&r, 1, 3)) { m = 2049 + (int)rng_below(&r, 700); n = 70 + (int)rng_below(&r, 260); } /* more rows than one 2048-row block below the pivot strip */
     sb_printf(o, "mat 0 %d %d rand 128 %llu\nperm 0 %d id 0\nperm 1 %d id 0\nop %s 0 0 1 %ld\n", m, n, s1, m, n, op, cut[rng_below(&r, 6)]);
   } else if (IS("solve")) {
     int m = pdim(&r, mj), n = pdim(&r, mj), w = pdim(&r, 2);
